@@ -4,7 +4,7 @@
 From Gokrb5.lib Require Import Bytes JV.
 From Gokrb5.model Require Import Crypto.
 From Gokrb5.prim Require CBC RC4.
-From Gokrb5.proofs Require Import CryptoBasic CTSProofs CryptoRoundTrip.
+From Gokrb5.proofs Require Import CryptoBasic CTSProofs CryptoWf CryptoRoundTrip.
 
 Theorem C05_rc4_usage_alias : forall u,
   rc4_msg_type u = le_bytes 4 (rc4_alias u) /\ length (rc4_msg_type u) = 4%nat.
@@ -18,35 +18,43 @@ Proof. exact rc4_msg_type_injective. Qed.
 Print Assumptions C05_rc4_msg_type_injective.
 
 (* ---- round trip: whatever the RFC model encrypts it decrypts to the same plaintext ----
-   The block cipher enters through its inverse property only (premise); RC4 needs none. *)
+   No hypothesis on the ciphers: AES and triple-DES decryption are proved inverse to encryption
+   (prim/AESInverse.v, prim/DESInverse.v), RC4 is an involution; premises say keys and data are bytes. *)
 Theorem C05_cts_roundtrip : forall (enc dec : bytes -> bytes),
-  (forall b, length b = 16%nat -> dec (enc b) = b) ->
+  (forall b, length b = 16%nat -> wf_bytes b -> dec (enc b) = b) ->
   (forall b, length b = 16%nat -> length (enc b) = 16%nat) ->
-  forall d, (16 <= length d)%nat -> cts_decrypt dec (cts_encrypt enc d) = Ok d.
+  (forall b, length b = 16%nat -> wf_bytes b -> wf_bytes (enc b)) ->
+  forall d, (16 <= length d)%nat -> wf_bytes d -> cts_decrypt dec (cts_encrypt enc d) = Ok d.
 Proof. exact cts_roundtrip. Qed.
 Print Assumptions C05_cts_roundtrip.
 
-Theorem C05_aes_sha1_roundtrip :
-  (forall ke b, length b = 16%nat -> aes_ecb_dec ke (aes_ecb ke b) = b) ->
-  forall et key usage conf msg ct,
+Theorem C05_aes_block_inverse : forall key blk,
+  wf_bytes key -> length blk = 16%nat -> wf_bytes blk -> aes_ecb_dec key (aes_ecb key blk) = blk.
+Proof. intros key blk Hk. exact (CryptoWf.aes_ecb_inverse key Hk blk). Qed.
+Print Assumptions C05_aes_block_inverse.
+
+Theorem C05_des3_block_inverse : forall key blk,
+  length blk = 8%nat -> wf_bytes blk -> des3_ecb_dec key (des3_ecb key blk) = blk.
+Proof. exact des3_inv. Qed.
+Print Assumptions C05_des3_block_inverse.
+
+Theorem C05_aes_sha1_roundtrip : forall et key usage conf msg ct,
   et_family et = Some FAesSha1 -> length conf = 16%nat ->
+  wf_bytes key -> wf_bytes conf -> wf_bytes msg ->
   encrypt_with et key usage conf msg = Ok ct -> decrypt et key usage ct = Ok msg.
 Proof. exact aes_sha1_roundtrip. Qed.
 Print Assumptions C05_aes_sha1_roundtrip.
 
-Theorem C05_aes_sha2_roundtrip :
-  (forall ke b, length b = 16%nat -> aes_ecb_dec ke (aes_ecb ke b) = b) ->
-  forall et key usage conf msg ct,
+Theorem C05_aes_sha2_roundtrip : forall et key usage conf msg ct,
   et_family et = Some FAesSha2 -> length conf = 16%nat ->
+  wf_bytes key -> wf_bytes conf -> wf_bytes msg ->
   encrypt_with et key usage conf msg = Ok ct -> decrypt et key usage ct = Ok msg.
 Proof. exact aes_sha2_roundtrip. Qed.
 Print Assumptions C05_aes_sha2_roundtrip.
 
 (* des3: "up to the zero padding RFC 3961 prescribes" *)
-Theorem C05_des3_roundtrip :
-  (forall ke b, length b = 8%nat -> des3_ecb_dec ke (des3_ecb ke b) = b) ->
-  forall key usage conf msg ct,
-  length conf = 8%nat ->
+Theorem C05_des3_roundtrip : forall key usage conf msg ct,
+  length conf = 8%nat -> wf_bytes conf -> wf_bytes msg ->
   encrypt_with 16 key usage conf msg = Ok ct ->
   decrypt 16 key usage ct = Ok (msg ++ zeros ((8 - length (conf ++ msg) mod 8) mod 8)).
 Proof. exact des3_roundtrip. Qed.
@@ -57,3 +65,11 @@ Theorem C05_rc4_roundtrip : forall key usage conf msg ct,
   encrypt_with 23 key usage conf msg = Ok ct -> decrypt 23 key usage ct = Ok msg.
 Proof. exact rc4_roundtrip. Qed.
 Print Assumptions C05_rc4_roundtrip.
+
+(* the premises are satisfiable: encryption of a byte string under a byte-string key succeeds *)
+Example C05_roundtrip_nonvacuous :
+  match encrypt_with 17 (repeatz 7 16) 2 (repeatz 1 16) [104;105] with
+  | Ok ct => decrypt 17 (repeatz 7 16) 2 ct = Ok [104;105]
+  | _ => False
+  end.
+Proof. vm_compute. reflexivity. Qed.
